@@ -44,8 +44,8 @@ def reset_preserves_instance(name, td_in, td0):
         if not isinstance(v, torch.Tensor) or k not in td0.keys():
             continue
         w = td0[k]
-        if (name, k) in (("op", "max_length"),):
-            continue
+        if (name, k) in (("op", "max_length"),) or k == "action_mask":
+            continue  # documented transforms; 'action_mask' is state even when an instance supplies an initial one (DPP/MDPP)
         if name == "mdcpdp" and k == "locs":
             if not torch.equal(w, torch.cat((td_in["depot"].reshape(v.shape[0], -1, 2), v), 1)):
                 return k, "locs of the reset state are not depots + customers of the instance"
@@ -306,6 +306,13 @@ def other_case(ctx, case, monitors):
     T = len(ep.actions)
     ctx.count("episodes")
     ctx.count("env_steps", T)
+    if not case.get("reuse"):
+        bad_key = reset_preserves_instance(name, td_keep, td0)
+        ctx.count("reset_instance_key_checks")
+        if bad_key and ({"C07", "C08", "C03"} & monitors):
+            ctx.evaluation()
+            ctx.violation(sig_of(cfg, q="reset_alters_instance", key=bad_key[0]), f"env.reset changed instance data: {bad_key[1]}", None)
+            return
     if ep.error is not None and ({"C07", "C08", "C03"} & monitors) and "C02" not in monitors:
         # a mask-confined episode that raises yields no schedule / selection / reward at all
         ctx.evaluation()
@@ -426,8 +433,9 @@ def other_case(ctx, case, monitors):
     if name == "flp":
         insts = [dict(locs=td0["locs"][b].tolist(), k=int(td0["to_choose"].reshape(B, -1)[b, 0])) for b in range(B)]
     elif name == "mcp":
-        insts = [dict(membership=[[int(x) for x in row if x > 0] for row in td0["orig_membership"][b].tolist()], weights=td0["orig_weights"][b].tolist(),
-                      k=int(td0["n_sets_to_choose"].reshape(B, -1)[b, 0])) for b in range(B)]
+        # sets and weights from the instance as handed over (the env keeps working copies: 'orig_membership', 'orig_weights')
+        insts = [dict(membership=[[int(x) for x in row if x > 0] for row in td_keep["membership"][b].tolist()], weights=td_keep["weights"][b].tolist(),
+                      k=int(td_keep["n_sets_to_choose"].reshape(B, -1)[b, 0])) for b in range(B)]
     else:
         insts = [dict(allowed=td0["action_mask"][b].tolist(), keepout=td0["keepout"][b].tolist(), probe=td0["probe"][b].tolist(), k=cfg["decaps"]) for b in range(B)]
     fins, pad = _structural(ctx, cfg, ep, B, lambda b: insts[b]["k"], insts) if "C02" in monitors else ([ep.finish_step(b) for b in range(B)], None)
